@@ -677,7 +677,7 @@ func runProgram(o *hxlib.Out, r *hxlib.Rng, idx int, pc progCase, lim limits, pa
 				return
 			}
 			ptag := strings.ReplaceAll(pc.name, " ", "_") + "|" + kind + "/" + t.tn
-			o.Op(fmt.Sprintf("c09 pass %s %s %s", ptag, kind, in), want)
+			o.Op(fmt.Sprintf("c09 pass %s %s %s", ptag, kind, in), "wf=true;"+want)
 			o.Count("pass_ops_" + kind)
 		}
 		if stg[3].circ != nil && stg[2].circ != nil {
